@@ -41,6 +41,10 @@ def c10(res: CheckResult) -> None:
     rng = random.Random(res.seed)
     res.assumptions = COMMON_ASSUMPTIONS
     call_unit(res, "re-entrant call graphs over two functions", list(F.fam_reent(res.tier, rng)), ic)
+    call_unit(res, "invariants / preconditions / bodies calling methods of the same and of another instance",
+              list(F.fam_reent_inst(res.tier, rng)), ic)
+    call_unit(res, "async public methods awaiting public methods of the same / another object",
+              list(F.fam_reent_async(res.tier, rng)), ic)
 
 
 @check("C02")
@@ -104,6 +108,8 @@ def c11(res: CheckResult) -> None:
               list(F.fam_fault(res.tier, rng)), ic, require_outcomes=["ret", "Violation", "KI", "Exception"])
     call_unit(res, "cancellation / close at every suspension point of an async call, then a probe",
               list(F.fam_cancel(res.tier, rng)), ic, require_outcomes=["ret", "Cancelled"])
+    call_unit(res, "violations found by async and sync public methods, then further operations on the same object",
+              list(F.fam_inv_async(res.tier, rng)), ic)
 
 
 @check("C12")
@@ -130,6 +136,8 @@ def c13(res: CheckResult) -> None:
               list(F.fam_async_placements(res.tier, rng)), ic, require_outcomes=["ret", "ValueError", "ErrFact"])
     call_unit(res, "async and sync public methods of a class with invariants; operation sequences",
               list(F.fam_inv_async(res.tier, rng)), ic)
+    call_unit(res, "async public methods awaiting public methods of the same / another object",
+              list(F.fam_reent_async(res.tier, rng)), ic)
     pairs = [p for p in F.fam_pre(res.tier, rng) if not any(f["async"] for f in p["fn"])]
     pairs += [p for p in F.fam_post(res.tier, rng) if not any(f["async"] for f in p["fn"])]
     pairs += [p for p in F.fam_order(res.tier, rng) if not any(f["async"] for f in p["fn"])]
@@ -333,6 +341,10 @@ def c14(res: CheckResult) -> None:
              list(DF.fam_foreign_hier(res.tier, rng)), ic, verdicts=True, rng=rng)
     def_unit(res, "diamonds: method resolution of classes with invariants equals that of the bare classes",
              list(DF.fam_shadow(res.tier, rng)), ic, rng=rng)
+    def_unit(res, "member kinds (method, property, static, class method) inherited / overridden under invariants",
+             list(DF.fam_kinds(res.tier, rng)), ic, verdicts=True, rng=rng)
+    call_unit(res, "async public methods awaiting public methods of the same / another object: values come back",
+              list(F.fam_reent_async(res.tier, rng)), ic)
     progs = [p for p in F.fam_pre(res.tier, rng)
              if all(all(c["truth"]) for c in p["con"])]
     call_unit(res, "satisfied contracts: identity of arguments at the body and of results / exceptions at the caller",
